@@ -36,6 +36,7 @@ class FnInfo:
         self.is_fn = True
         self.traitpost = False
         self.attr = None
+        self.n_loops = 0
 
 
 class Generated:
@@ -584,6 +585,7 @@ def generate(unit, template_path, repo=None, canary=False):
                 inserts.append((lay['body_open'] + 1, ' ' + dflt['bodyprelude'] + ' ', None))
             auto_inv = dflt.get('loopinv') if ghost else None
             all_loops = _loops(body, lay['body_open']) if lay['body_open'] is not None else []
+            fi.n_loops = len(all_loops)
             if loop_dirs or lowered or (auto_inv and all_loops):
                 loops = all_loops
                 ks = set(loop_dirs) | set(lowered)
